@@ -610,6 +610,39 @@ func gen(g *core.G) {
 		emitFmt(g, randMapCtx(r), v)
 	}
 
+	// (3b) radix renderings read back with the Integer constructor: new(Integer, text, radix)
+	backLetters := "dxXobB"
+	n = 1500
+	if g.Thorough() {
+		n = 30000
+	}
+	for i := 0; i < n; i++ {
+		sp := dirSpec{flags: "", width: -1, prec: -1, letter: backLetters[r.Intn(len(backLetters))]}
+		for _, fl := range "+#0-" {
+			if r.Intn(4) == 0 {
+				sp.flags += string(fl)
+			}
+		}
+		if r.Intn(3) == 0 {
+			sp.prec = precs[1+r.Intn(4)]
+		}
+		if r.Intn(10) == 0 {
+			sp.width = widths[1+r.Intn(3)]
+		}
+		if r.Intn(12) == 0 {
+			sp.letter = letters[r.Intn(len(letters))]
+		}
+		iv := intPool[r.Intn(len(intPool))]
+		if r.Intn(3) == 0 {
+			iv = r.Int63n(1<<uint(1+r.Intn(62))) * int64(1-2*r.Intn(2))
+		}
+		line := "back " + sx.Str(sp.String()).Atom + " " + strconv.FormatInt(iv, 10)
+		if strings.IndexByte("eEfgG", sp.letter) >= 0 {
+			line = "@" + line
+		}
+		g.Emit(line)
+	}
+
 	// (4) malformed directives (outside the quantifier; model and implementation must still agree on the error)
 	bad := []string{"", "%", "d", "%5", "%.d", "%5.d", "%00d", "%--5d", "%++d", "%  d", "%[{d", "%<(s", "%[[a", "%|<|a", "%05", "%5.3", "%d ", " %d",
 		"%dd", "%5.3.2d", "%é", "%1$d", "%*d", "%\td", "%\n5d", "%\t\td", "%\f\rs", "%#\tx", "%0-+ #d", "%-0# +12.8x", "%0d", "%010d", "%.00d", "%.08d", "%100d", "%5.100d"}
